@@ -30,14 +30,16 @@ def some(op, story_k, tk, sk, nk):
 
 def cells(tier):
     out = make_cells(PID, 'exc', tier)
-    for pat in ([0], [1], [0, 2], [0, 1, 2]):
+    for pat in (([0], [1], [0, 2], [0, 1, 2]) if tier == 'thorough' else ([0], [0, 1, 2])):
         out += make_cells(PID, 'exc', tier, thin=plain, extra={'untimed': pat}, suffix='untimed-' + ''.join(map(str, pat)))
     # roStorySend with an empty storyBody (a missing one is not schema-shaped: storyBody is a required element)
     out += make_cells(PID, 'exc', tier, N=3, ops=['roStorySend'], extra={'empty_body': True}, suffix='empty-storyBody')
     # stories that carry only some of the timing tags (TextTime alone, MediaTime alone, an empty payload)
     for pat in (['TT', 'SD', 'MT'], ['MT', 'TT+MT', 'none'], ['empty', 'TT', 'SD'], ['SD', 'blank', 'TT']):
         out += make_cells(PID, 'exc', tier, thin=plain, extra={'timing_pat': pat}, suffix='timing-' + ','.join(pat))
-    out += make_cells(PID, 'exc', tier, thin=some, extra={'blank_first': True}, suffix='blank-id-first')
+    some_q = some if tier == 'thorough' else (lambda op, story_k, tk, sk, nk: some(op, story_k, tk, sk, nk) and story_k in (None, 'existing') and
+                                              tk in (None, 'existing', 'unknown', 'blank'))
+    out += make_cells(PID, 'exc', tier, thin=some_q, extra={'blank_first': True}, suffix='blank-id-first')
     out += make_cells(PID, 'exc', tier, thin=plain, extra={'blank_first': True, 'untimed': [1]}, suffix='blank-id-first+untimed-1')
     # classification: a roElementAction of any operation / shape, and an element of any name, never escape as
     # KeyError / AttributeError (cells shared with C08)
@@ -50,13 +52,17 @@ def cells(tier):
             out.append(c)
     plain2 = lambda op, story_k, tk, sk, nk: story_k in (None, 'existing') and tk in (None, 'existing', 'unknown') and \
         (sk is None or sk in (['existing'], ['existing', 'existing'], ['existing', 'unknown'])) and (nk is None or nk == ['fresh'])
-    out += make_cells(PID, 'exc', tier, N=3, thin=plain2, extra={'prehist': True}, suffix='after-roReplace')
+    # quick tier: the history / layout variations use one resolvable representative per message shape
+    hist = plain2 if tier == 'thorough' else (lambda op, story_k, tk, sk, nk: plain2(op, story_k, tk, sk, nk) and tk in (None, 'existing') and
+                                             (sk is None or 'unknown' not in sk))
+    out += make_cells(PID, 'exc', tier, N=3, thin=hist, extra={'prehist': True}, suffix='after-roReplace')
     # ... and after a series of refused messages (what a non-strict collection merge leaves behind)
-    out += make_cells(PID, 'exc', tier, N=3, thin=plain2, extra={'prefail': True}, suffix='after-refused-messages')
+    out += make_cells(PID, 'exc', tier, N=3, thin=hist, extra={'prefail': True}, suffix='after-refused-messages')
     # ... and when every story was re-sent by a roStorySend before
-    out += make_cells(PID, 'exc', tier, N=3, thin=plain2, extra={'presend': True}, suffix='after-roStorySend-of-every-story')
+    out += make_cells(PID, 'exc', tier, N=3, thin=hist, extra={'presend': True}, suffix='after-roStorySend-of-every-story')
     # carried stories / items without the optional slug (fresh ones and duplicates)
-    out += make_cells(PID, 'exc', tier, N=3, thin=lambda op, story_k, tk, sk, nk: nk is not None and story_k in (None, 'existing') and tk in (None, 'existing', 'blank'),
+    out += make_cells(PID, 'exc', tier, N=3, thin=lambda op, story_k, tk, sk, nk: nk is not None and story_k in (None, 'existing') and tk in (None, 'existing') and
+                      (tier == 'thorough' or 'Story' in op or nk == ['fresh']),
                       extra={'carried_slug': False}, suffix='carried-without-slug')
     # roDelete / roReadyToAir into timed, untimed, empty running orders; a roDelete naming another or no running order
     from .p_c03 import icell
